@@ -121,7 +121,14 @@ pub fn family(tier: Tier) -> Vec<TrainCfg> {
         "zz\tN,*\nb\tV,y\nEOS\n",           // out-of-lexicon token compatible with an unknown entry
         "q\tXX,yy\nc\tP,x\nEOS\nb\tV,y\nc\tP,x\nEOS\n", // virtual edge
     ];
-    let users: Vec<Vec<&str>> = vec![vec![], vec!["ac,0,0,0,N,x\nca,0,0,0,V,new\n"], vec!["ac,1,1,77,N,x\n"], vec!["ac,0,0,0,N,x\n", "\"x,y\",1,2,-5,Q,q\nbb,0,0,0,V,y\n"]];
+    let users: Vec<Vec<&str>> = vec![
+        vec![],
+        vec!["ac,0,0,0,N,x\nca,0,0,0,V,new\n"],
+        vec!["ac,1,1,77,N,x\n"],
+        vec!["ac,0,0,0,N,x\n", "\"x,y\",1,2,-5,Q,q\nbb,0,0,0,V,y\n"],
+        // the same feature string on surfaces of different character categories
+        vec!["ac,0,0,0,N,x\nあc,0,0,0,N,x\n c,0,0,0,N,x\n"],
+    ];
     let mut out = vec![];
     for (sn, seed) in &seeds {
         for (un, unk) in &unks {
@@ -418,6 +425,62 @@ pub fn check_c14(cfg: &TrainCfg, m: &mut Model, st: &mut Stats, tag: &str) -> bo
     if lines.len() != urows.len() || labels.len() != urows.len() {
         fail(st, "user-row-count", format!("user.csv has {} rows, {} user rows were read", lines.len(), urows.len()));
         return false;
+    }
+    // every user row's label must stand for exactly the feature set of that row: the set is
+    // decoded to strings through the model's interned tables and compared with the reference
+    // expansion of the (rewritten) features under the category of the row's first character
+    let nsets = exp.merged.feature_sets.len();
+    if let Ok((mir, _)) = bincode::decode_from_slice::<RawMirror, _>(&raw_bytes, bcfg()) {
+        let cat_of = |surface: &str| -> u32 {
+            let c = surface.chars().next().map_or(0, |c| c as u32);
+            let mut cur = 0u32;
+            for line in cfg.chardef.lines() {
+                let mut it = line.split_whitespace();
+                let Some(first) = it.next() else { continue };
+                let Some(rest) = first.strip_prefix("0x") else { continue };
+                let parsed = match rest.split_once("..0x") {
+                    Some((a, b)) => u32::from_str_radix(a, 16).ok().zip(u32::from_str_radix(b, 16).ok()),
+                    None => u32::from_str_radix(rest, 16).ok().map(|v| (v, v)),
+                };
+                if let (Some((lo, hi)), Some(name)) = (parsed, it.next()) {
+                    if lo <= c && c <= hi {
+                        cur = cfg.cats.iter().position(|x| x == name).unwrap_or(0) as u32;
+                    }
+                }
+            }
+            cur
+        };
+        let rev = |k: Kind| -> HashMap<u32, String> { m.verif_feature_ids(k).into_iter().map(|(s, i)| (i, s)).collect() };
+        let (us, ls, rs) = (rev(Kind::Unigram), rev(Kind::Left), rev(Kind::Right));
+        for (i, src) in urows.iter().enumerate() {
+            let l = labels[i] as usize;
+            if l == 0 || l > nsets || l <= seed.len() + grouped.len() {
+                fail(st, "user-label-out-of-range", format!("user row {i} carries label {l} ({nsets} labels, {} of them seed/unknown)", seed.len() + grouped.len()));
+                return false;
+            }
+            let fsm = &mir.provider.feature_sets[l - 1];
+            let cells = csv_cells(&src.4);
+            let cate = cat_of(&src.0);
+            let uf = ref_rewrite("[unigram rewrite]", &cfg.rewrite, &cells);
+            let lf = ref_rewrite("[left rewrite]", &cfg.rewrite, &cells);
+            let rf = ref_rewrite("[right rewrite]", &cfg.rewrite, &cells);
+            let want_u: Vec<String> = cfg.unigram_templates.iter().filter_map(|t| expand(t, 'F', true, &uf, cate)).collect();
+            let want_l: Vec<Option<String>> = cfg.bigram_templates.iter().map(|t| expand(&t.0, 'L', false, &lf, 0)).collect();
+            let want_r: Vec<Option<String>> = cfg.bigram_templates.iter().map(|t| expand(&t.1, 'R', false, &rf, 0)).collect();
+            let got_u: Vec<String> = fsm.unigram.iter().map(|id| us.get(&id.get()).cloned().unwrap_or_else(|| format!("<unigram id {id} without string>"))).collect();
+            let dec = |v: &Vec<Option<NonZeroU32>>, names: &HashMap<u32, String>| -> Vec<Option<String>> { v.iter().map(|o| o.map(|id| names.get(&id.get()).cloned().unwrap_or_else(|| format!("<id {id} without string>")))).collect() };
+            let got_l = dec(&fsm.bigram_left, &ls);
+            let got_r = dec(&fsm.bigram_right, &rs);
+            st.count("user_feature_sets_decoded_and_compared");
+            if got_u != want_u || got_l != want_l || got_r != want_r {
+                fail(
+                    st,
+                    "user-row-feature-set-wrong",
+                    format!("user row {:?} (category {cate}, features {:?}): label {l} stands for unigram {:?} left {:?} right {:?}, expected unigram {:?} left {:?} right {:?}", src.0, cells, got_u, got_l, got_r, want_u, want_l, want_r),
+                );
+                return false;
+            }
+        }
     }
     for (i, (line, src)) in lines.iter().zip(&urows).enumerate() {
         let fs = exp.merged.feature_sets[labels[i] as usize - 1];
